@@ -62,11 +62,24 @@ where
                     if !self.start_of_line {
                         next = Some(Ok((soft_to_name(tok), *range)));
                     } else {
+                        // A `match` statement header always ends its logical line with the
+                        // colon; a line that goes on after a top-level colon (an annotated
+                        // assignment such as `match[x]: int = 1`, or `match; x: int`) uses
+                        // `match` as a name.
+                        let is_match = matches!(tok, Tok::Match);
+                        let mut ends_with_colon = false;
                         let mut nesting = 0;
                         let mut first = true;
                         let mut seen_colon = false;
                         let mut seen_lambda = false;
                         while let Some(Ok((tok, _))) = self.underlying.peek() {
+                            #[cfg(feature = "full-lexer")]
+                            if matches!(tok, Tok::Comment { .. }) {
+                                continue;
+                            }
+                            if !matches!(tok, Tok::Newline) {
+                                ends_with_colon = nesting == 0 && matches!(tok, Tok::Colon);
+                            }
                             match tok {
                                 Tok::Newline => break,
                                 Tok::Lambda if nesting == 0 => seen_lambda = true,
@@ -83,7 +96,7 @@ where
                             }
                             first = false;
                         }
-                        if !seen_colon {
+                        if !seen_colon || (is_match && !ends_with_colon) {
                             next = Some(Ok((soft_to_name(tok), *range)));
                         }
                     }
